@@ -115,6 +115,8 @@ impl Iterator for Probe {
         }
     }
     fn size_hint(&self) -> (usize, Option<usize>) {
+        // reading the wrapped iterator's state is also a use of it: it must be ordered after every next()
+        sh::cell_access(CELL_PROBE, false, "the wrapped iterator's state (size_hint)");
         let n = self.items.len();
         match self.hint {
             Hint::Exact => (n, Some(n)),
@@ -147,6 +149,7 @@ impl<T> Iterator for ProbeRef<T> {
         r
     }
     fn size_hint(&self) -> (usize, Option<usize>) {
+        sh::cell_access(CELL_PROBE, false, "the wrapped iterator's state (size_hint)");
         let n = self.src.len() - self.i;
         match self.hint {
             Hint::Exact => (n, Some(n)),
